@@ -11,7 +11,7 @@ SIZES = [0, 1, 1, 2, 2, 3, 3, 5, 7, 12]
 BIG_SIZES = [99, 100, 101, 150]
 
 
-def gen_tables(rng, ntab=None, sizes=None, big_p=0.08, types=('string', 'integer', 'boolean', 'number', 'date')):
+def gen_tables(rng, ntab=None, sizes=None, big_p=0.08, types=('string', 'integer', 'boolean', 'number', 'date'), nested_p=0.0):
     ntab = ntab or rng.choice([1, 1, 2, 2, 3])
     tabs = []
     idc = 0
@@ -20,6 +20,8 @@ def gen_tables(rng, ntab=None, sizes=None, big_p=0.08, types=('string', 'integer
         k = rng.randrange(1, 5)
         # overlapping field names across resources (so that concatenate / join have something to work with)
         tt = [rng.choice(types) for _ in range(k)]
+        if nested_p and rng.random() < nested_p:
+            tt[rng.randrange(k)] = rng.choice(['array', 'object'])
         names = []
         for j, t in enumerate(tt):
             names.append('%s%d' % (t[0], j))          # e.g. s0, i1, b2 : same name => same type across resources
